@@ -121,6 +121,17 @@ pub fn scenario(name: &str, params: &Value) -> Scenario {
                     }
                 }
             }
+            // Payload Format Indicator 1 over bytes that are not UTF-8: a receiver MAY validate and answer
+            // with reason 0x99, or not look at all - one acknowledgement either way (what the stream
+            // gets is not compared in this check)
+            for q in 1..3u8 {
+                let mut bad = inbound(q, false, pids[0], &[live], "x");
+                if let SPacket::Publish { props, payload, .. } = &mut bad {
+                    props.insert(0, Prop::byte(P_PAYLOAD_FORMAT, 1));
+                    *payload = vec![0xff, 0xfe, 0x00, 0x80];
+                }
+                e.push(Ev::Deliver(bad));
+            }
             for pid in &pids {
                 e.push(Ev::Deliver(pubrel_in(*pid)));
             }
